@@ -260,6 +260,31 @@ func runC01Scenario(sc c01Scenario, idx int, res *lib.Result) {
 				}
 			}
 		}
+		// positions that do not exist: a line past the last one (a client whose view of the document is ahead of or
+		// behind the server's sends them), for requests and for an edit range
+		for _, ln := range []int{len(lines), len(lines) + 3} {
+			for _, c := range []int{0, 7} {
+				for _, m := range c01Methods {
+					params := map[string]interface{}{"textDocument": map[string]interface{}{"uri": sess.URI(sc.open)},
+						"position": map[string]interface{}{"line": ln, "character": c}}
+					if m == "textDocument/references" {
+						params["context"] = map[string]interface{}{"includeDeclaration": true}
+					}
+					if m == "textDocument/rename" {
+						params["newName"] = "zz"
+					}
+					lib.Breadcrumb(fmt.Sprintf("C01 scenario %d (%s): %s at %d:%d, a line past the end of\n%s", idx, sc.kind, m, ln, c, t))
+					if _, err := sess.Call(m, params); err != nil && strings.Contains(err.Error(), "TIMEOUT") {
+						fmt.Printf("HANG %d %s at %d:%d (past the end): %v\n", idx, m, ln, c, err)
+						return false
+					}
+					res.Evaluations++
+				}
+			}
+		}
+		lib.Breadcrumb(fmt.Sprintf("C01 scenario %d (%s): didChange with a range that ends past the last line of\n%s", idx, sc.kind, t))
+		sess.DidChange(sc.open, []lib.ContentChange{{Range: &lib.Range{Start: lib.Pos{Line: len(lines) / 2, Character: 0}, End: lib.Pos{Line: len(lines) + 4, Character: 0}}, Text: "x = 1\n"}})
+		sess.DidChange(sc.open, []lib.ContentChange{{Text: t}})
 		for _, m := range []string{"textDocument/documentSymbol", "textDocument/documentColor"} {
 			if _, err := sess.Call(m, map[string]interface{}{"textDocument": map[string]interface{}{"uri": sess.URI(sc.open)}}); err != nil && strings.Contains(err.Error(), "TIMEOUT") {
 				fmt.Printf("HANG %d %s: %v\n", idx, m, err)
